@@ -971,9 +971,11 @@ class _StubDec:
 
     def __init__(self, script):
         self.script = list(script)
+        self.consumed = 0   # Worker.decompress compares it before/after a call (stall guard)
 
     def decompress(self, fp, max_length=-1):
         n = self.script.pop(0) if self.script else max_length
+        self.consumed += 1  # every scripted round "reads input": 0-length chunks are not stalls
         return b"\x00" * n
 
 
